@@ -133,7 +133,7 @@ static uint64_t memory_hash(Memory *memory)
 }
 
 // one step from a prepared state; returns (ret, exit?, sanitizer?, hash of register dump + memory)
-struct StepResult { int ret; bool exited; bool san; bool san_prep; bool badlen; uint64_t hash; uint64_t outcome; std::string dump; };
+struct StepResult { int ret; bool exited; bool san; bool san_prep; bool badlen; bool outside; uint64_t hash; uint64_t outcome; std::string dump; };
 
 // the simulators that advance pc by the disassembler's length (6502, 65816): length of the instruction at pc, else 0
 static int disasm_length(int cpu, Memory *memory, uint32_t pc)
@@ -143,6 +143,26 @@ static int disasm_length(int cpu, Memory *memory, uint32_t pc)
   if (cpu_list[cpu].simulate_init == Simulate6502::init) { return disasm_6502(memory, pc, text, sizeof(text), 0, &c0, &c1); }
   if (cpu_list[cpu].simulate_init == Simulate65816::init) { return disasm_65816(memory, pc, text, sizeof(text), 0, &c0, &c1); }
   return 0;
+}
+
+// size of the simulated address space in bytes for the CPUs whose architecture has 16 address bits (0 = not judged)
+static uint32_t address_space(int cpu)
+{
+  if (cpu_list[cpu].simulate_init == Simulate6502::init) { return 0x10000; }
+  // (MSP430 is not judged: a word store at the odd address 0xffff leaves its high byte at 0x10000, and odd word accesses are
+  // outside what C14's reference defines; see DESIGN.md 0.5)
+  return 0;
+}
+
+// a store beyond the address space shows as a written window in a page of the sparse image at or above the limit
+static bool wrote_outside(Memory *memory, uint32_t limit)
+{
+  if (limit == 0) { return false; }
+  for (MemoryPage *p = memory->pages; p != NULL; p = p->next)
+  {
+    if (p->address >= limit && p->offset_min <= p->offset_max) { return true; }
+  }
+  return false;
 }
 
 static long length_pc(int cpu, Simulate *sim)
@@ -194,7 +214,7 @@ static uint32_t fetch_address(int cpu, uint32_t pc)
 static StepResult one_step(Memory *memory, int cpu, uint32_t pc, const uint8_t *pattern, int which, bool keep_dump)
 {
   StepResult r;
-  r.ret = 0; r.exited = false; r.san = false; r.san_prep = false; r.badlen = false; r.hash = 0;
+  r.ret = 0; r.exited = false; r.san = false; r.san_prep = false; r.badlen = false; r.outside = false; r.hash = 0;
   memory->clear();
   memory->low_address = 0xffffffff;
   memory->high_address = 0;
@@ -243,6 +263,7 @@ static StepResult one_step(Memory *memory, int cpu, uint32_t pc, const uint8_t *
     if (keep_dump) { r.dump.assign(buf, n); }
   }
   r.outcome = fnv(h, &r.ret, sizeof(r.ret));
+  r.outside = wrote_outside(memory, address_space(cpu));
   uint64_t mh = memory_hash(memory);
   h = fnv(h, &mh, 8);
   h = fnv(h, &r.ret, sizeof(r.ret));
@@ -283,6 +304,7 @@ static void cmd_cell(char *args)
     else if (a.san || c.san) { kind = "sanitizer"; }
     else if (a.exited) { kind = "exit-called"; }
     else if (a.badlen) { kind = "length"; }
+    else if (a.outside) { kind = "outside"; }
     else if (a.hash != c.hash) { kind = "nondeterministic"; }
     if (kind != NULL)
     {
